@@ -696,6 +696,58 @@ fn gen_reverse(t: &mut Tape) -> (Kind, Vec<u8>, &'static str) {
 }
 
 // ------------------------------------------------------------------------------------------------
+// "an equal value": equality itself has to be faithful. For the header types whose encoding carries
+// every field (among them the five with hand-written `PartialEq`: ArpPacket, IpAuthHeader,
+// Ipv6RawExtHeader, Ipv4Options, TcpOptions) two values are equal exactly when their encodings are:
+// the value is compared with a near-copy (one field of the record changed by a bit, a byte or a length).
+
+fn near_copy(rec: &Rec, t: &mut Tape) -> Rec {
+    let mut r2 = rec.clone();
+    let keys: Vec<String> = r2.f.keys().cloned().collect();
+    if keys.is_empty() {
+        return r2;
+    }
+    let k = &keys[t.below(keys.len())];
+    match r2.f.get_mut(k) {
+        Some(F::N(v)) => {
+            let w = if t.chance(1, 4) { 16 } else { 4 };
+            *v ^= 1 << t.below(w);
+        }
+        Some(F::B(b)) => {
+            if b.is_empty() || t.chance(1, 5) {
+                b.push(t.u8());
+            } else if t.chance(1, 6) {
+                b.pop();
+            } else {
+                let i = t.below(b.len());
+                b[i] ^= 1 << t.below(8);
+            }
+        }
+        Some(F::R(r)) => *r = near_copy(r, t),
+        None => {}
+    }
+    r2
+}
+
+fn check_equality(rec: &Rec, t: &mut Tape, ctx: &mut Ctx) -> Result<(), Failure> {
+    let rec2 = near_copy(rec, t);
+    let (Ok(Ok(a)), Ok(Ok(b))) = (catch(|| build(rec)), catch(|| build(&rec2))) else { return Ok(()) };
+    ctx.eval(1);
+    let (eq_val, eq_bytes) = (a.val == b.val, a.expect == b.expect);
+    ctx.class(if eq_bytes { "eq:near-copy-same-encoding" } else { "eq:near-copy-differs" });
+    if eq_val != eq_bytes {
+        let input = json!({"mode": "eq", "rec": rec.to_json(), "rec2": rec2.to_json()});
+        return ctx.fail(Failure::new(
+            format!("C08|{}::eq|{}|equality-follows-the-encoding|{}", a.val.kind().name(), a.val.kind().name(), if eq_val { "equal-but-different-bytes" } else { "unequal-but-same-bytes" }),
+            "two values are equal exactly when their encodings are (types whose encoding carries every field)",
+            format!("{:?} == {:?} is {} although the reference encodings {} ({} vs {})", a.val, b.val, eq_val, if eq_bytes { "are identical" } else { "differ" }, hex(&a.expect[..a.expect.len().min(48)]), hex(&b.expect[..b.expect.len().min(48)])),
+            input,
+        ));
+    }
+    Ok(())
+}
+
+// ------------------------------------------------------------------------------------------------
 // enumerated sub-domains
 
 struct Exh {
@@ -1014,7 +1066,11 @@ impl Property for C08 {
             } else {
                 vec![]
             };
-            check_forward(&rec, &g, ctx)
+            check_forward(&rec, &g, ctx)?;
+            if matches!(rec.ty.as_str(), "arp" | "auth" | "rawext" | "ipv4" | "tcp" | "eth2" | "udp" | "vlan" | "frag" | "ipv6") && t.chance(1, 3) {
+                check_equality(&rec, &mut t, ctx)?;
+            }
+            Ok(())
         }
     }
     fn exhaustive(&self, tier: Tier, shard: u64, nshards: u64, ctx: &mut Ctx) -> Result<(), Failure> {
